@@ -4,19 +4,14 @@ sys.path.insert(0, os.path.dirname(__file__))
 from funnel_common import funnel_job, funnel_conc_job, funnel_shared_job, FUNNEL_RULE, FUNNEL_ASSUME
 
 PROP = {
-    "lean_modules": ["ConduitModel.Props.C05"],
+    "lean_modules": ["ConduitModel.Props.C04", "ConduitModel.Props.ArbiterProps"],
     "jobs": [funnel_job("C04"), funnel_conc_job("C04"), funnel_shared_job("C04")],
     "rule": FUNNEL_RULE,
-    "strength": "v2: proved — the tainted loop hands out the batch left to right exactly once (all status vectors); pass-level order "
-                "to each destination is decided by the monitor on every implementation trace + equality with the model (partial: composition not proved). v1: see Props/C04Stream when merged",
+    "strength": 'arbiter release order and loop partition: full; whole pass: partial (see note)',
     "assumptions": FUNNEL_ASSUME,
 }
 META = {
-    "text": "Lean 4 theorems for every status vector: the sub-batches the arch-v2 worker hands to the next task are non-empty, contiguous, "
-            "in index order and cover the batch exactly once (C05_subbatches_partition / _cover / _groups_progress; acks are produced group by group, hence in read order). The executable model of the "
-            "whole pass (Model/Funnel.lean) is tied to the real funnel.Worker by equality of event logs on generated topologies/scripts, and the "
-            "C04 monitor (the concatenation of source acks is exactly a prefix of the records read: no gap, no repeat, no reorder) is evaluated on every implementation trace.",
-    "note": "PARTIAL: the composition of the loop theorem with the task recursion (doTaskAttempt/doNextTask/retry) is validated by differential "
-            "testing, not proved. Fan-out concurrency is compared under serial branch orders. Go channel/goroutine semantics, plugins replaced by fakes.",
-    "technique": "Lean 4 proof of the batch-partition law + model/implementation trace equality + Lean-defined trace monitor",
+    "text": 'Lean 4 theorems: the multiAckNacker releases exactly the in-order prefix 0..released-1, each position once, released monotone, for every vote sequence (C04_ma_release_prefix/_next); the tainted loop hands out sub-batches left to right covering the batch exactly once (C04_groups_in_read_order, _strictly_advance). Whole-pass ack order is decided by the C04 monitor (acks = exact prefix of records read; overlapping Source.Ack calls flagged) on every implementation trace incl. real concurrent fan-out with a slow source, and by equality with the model.',
+    "note": 'PARTIAL: the composition of these leaf theorems with the task recursion of Worker.doTaskAttempt/doNextTask (whole-pass statement) is validated by equality of event logs against the executable Lean model and by the Lean-defined trace monitor on every implementation trace (serial fan-out orders, real concurrent fan-out, several sources into one shared sink), not proved. v1 (default engine) part: Props/*Stream when merged. Trusted: Lean kernel, factgen, harness/fakes, Go runtime.',
+    "technique": 'Lean 4 invariant proofs (release-prefix, partition law) + model/implementation trace equality + Lean-defined trace monitor',
 }
